@@ -46,6 +46,8 @@ def fname(f):
         s += "-dc" + f["dc"]
     if f.get("range"):
         s += "-range"
+    if f.get("longchain"):
+        s += "-longchain"
     return s
 
 
